@@ -85,11 +85,13 @@ def impl_functions():
     fs['longest_common_prefix'] = lambda strs, flag, opt: uri.longest_common_prefix(strs[0], strs[1])
     mi = importlib.import_module("shexer.core.shexing.strategy.minimal_iri_strategy.annotate_min_iri_strategy")
     fs['determine_suitable_iri_pattern'] = lambda strs, flag, opt: mi.AnnotateMinIriStrategy._determine_suitable_iri_pattern(None, opt)
+    ty = importlib.import_module("shexer.utils.triple_yielders")
+    fs['check_if_property_belongs_to_namespace_list'] = lambda strs, flag, opt: "1" if ty.check_if_property_belongs_to_namespace_list(strs[0], strs[1:]) else "0"
     fs['get_shape_label_for_class_uri'] = lambda strs, flag, opt: l2s.ListOfClassesToShapeMap._get_shape_label_for_class_uri(None, strs[0])
     return fs
 
 
-ARITY = {'determine_suitable_iri_pattern': 0, 'longest_common_prefix': 2, 'remove_corners': 1, 'decide_literal_type': 1, 'build_shapes_name_for_class_uri': 2, 'get_shape_label_for_class_uri': 1}
+ARITY = {'check_if_property_belongs_to_namespace_list': 1, 'determine_suitable_iri_pattern': 0, 'longest_common_prefix': 2, 'remove_corners': 1, 'decide_literal_type': 1, 'build_shapes_name_for_class_uri': 2, 'get_shape_label_for_class_uri': 1}
 
 
 def gen_function(rng, names):
@@ -98,6 +100,9 @@ def gen_function(rng, names):
     if name == 'longest_common_prefix' and rng.random() < 0.8:      # strings that share a prefix, one a prefix of the other, equal, empty
         basis = rstr(rng, PIECES, 0, 4)
         strs = [basis[:rng.randint(0, len(basis))] + rstr(rng, SMALL, 0, 2) if rng.random() < 0.7 else basis for _ in range(2)]
+    if name == 'check_if_property_belongs_to_namespace_list':
+        nss = ['http://example.org/', 'http://example.org/deep/', 'http://example.org/dee', 'http://example.org/ns#', '', 'http://other.example/']
+        strs = [rng.choice(nss) + rstr(rng, ['p', 'q', '/', '#', '1', 'deep'], 0, 3)] + rng.sample(nss, rng.randint(0, 3))
     if name == 'build_shapes_name_for_class_uri' and rng.random() < 0.7:
         strs[1] = rng.choice(['http://weso.es/shapes/', 'http://example.org/s#', ''])
     flag = rng.random() < 0.5
